@@ -74,20 +74,25 @@ Bracket(t) ==
         \* beyond the outermost cell centre of the domain (at that sample's level): the single nearest sample
         \/ (a = b /\ pos > Centre(a[1], NCells(a[1]) - 1) /\ a[2] = NCells(a[1]) - 1)
         \/ (a = b /\ pos < Centre(a[1], 0) /\ a[2] = 0)}
-\* (b) the unambiguous case: the finest level meeting the plane at t has a box containing pos between
-\*     its first and last cell centre
+\* (b) the unambiguous case: the finest level with a box crossed by the plane at t has, in this column, samples on
+\*     both sides of the plane in adjacent cells
 TightLevel(t) == IF \E l \in 0..lim : Meets(l, t) # {}
                  THEN CHOOSE l \in 0..lim : Meets(l, t) # {} /\ \A k \in (l + 1)..lim : Meets(k, t) = {} ELSE -1
 TightPair(t) ==
   LET l == TightLevel(t) IN
   IF l < 0 THEN <<>>
-  ELSE LET bs == {b \in Meets(l, t) : Centre(l, M[l + 1][b].lo[1]) <= pos /\ pos <= Centre(l, M[l + 1][b].hi[1])}
-       IN IF bs = {} THEN <<>>
-          ELSE LET b == CHOOSE b \in bs : TRUE
-                   il == CHOOSE i \in M[l + 1][b].lo[1]..M[l + 1][b].hi[1] :
-                            Centre(l, i) <= pos /\ \A j \in (i + 1)..M[l + 1][b].hi[1] : Centre(l, j) > pos
-                   ir == IF Centre(l, il) = pos THEN il ELSE il + 1
-               IN <<<<l, il>>, <<l, ir>>>>
+  ELSE \* level l's own samples in this column (possibly of two boxes facing each other) bracket the plane with
+       \* two ADJACENT cells, or one of them lies exactly on it
+       LET S == Stored(l, t)
+           below == {i \in S : Centre(l, i) <= pos}
+           above == {i \in S : Centre(l, i) >= pos}
+       IN IF below = {} \/ above = {} THEN <<>>
+          ELSE LET il == CHOOSE i \in below : \A j \in below : j <= i
+                   ir == CHOOSE i \in above : \A j \in above : i <= j
+               IN IF ir - il > 1 THEN <<>>
+                  ELSE IF Centre(l, il) = pos THEN <<<<l, il>>, <<l, il>>>>
+                  ELSE IF Centre(l, ir) = pos THEN <<<<l, ir>>, <<l, ir>>>>
+                  ELSE <<<<l, il>>, <<l, ir>>>>
 Acceptable(t) == IF TightPair(t) # <<>> THEN {TightPair(t)} ELSE Bracket(t)
 \* (d) levels that have a box at t meeting the plane
 GridLevels(t) == {l \in 0..lim : Meets(l, t) # {}}
